@@ -13,6 +13,8 @@ pub mod storage;
 mod task;
 mod taskdb;
 mod utils;
+#[cfg(gothenburgbitfactory_taskchampion_verif)]
+pub mod verif;
 mod workingset;
 
 pub use depmap::DependencyMap;
